@@ -80,6 +80,8 @@ def run(ctx, facts):
     ctx.rule("GUARD", C04.RULES["GUARD"]); ctx.rule("EXIT", C04.RULES["EXIT"]); ctx.rule("SEED", C04.RULES["SEED"]); ctx.rule("RESETBEFORE", C04.RULES["RESETBEFORE"])
     C04._setsketch(ctx, facts)
     C04._exit_setsketch(ctx, facts)
+    ctx.rule("SKIP", C04.RULES["SKIP"])
+    C04.skip_rule(ctx, facts, C04.SS + "sketch")
     C04.regvalue_rule(ctx, facts)
     C04.spacing_rule(ctx, facts)
     # the pruning bound must stay below every register, or draws that would raise a register are discarded
